@@ -208,11 +208,18 @@ var vC01LastOp atomic.Value    // string: the op about to be executed
 // vC01Watchdog ends the test process when no operation has completed for a while (a changed queue may spin forever
 // inside Read / Start, e.g. on indexes decoded from bytes it cannot read back): the hanging case is reported as a
 // violation with its case number, then the process exits so the run does not wait for the go test timeout.
-func vC01Watchdog(out *vOut, curCase *atomic.Int64) {
+func vC01Watchdog(out *vOut, curCase *atomic.Int64) (stop func()) {
+	quit, done := make(chan struct{}), make(chan struct{})
+	stop = func() { close(quit); <-done }
 	go func() {
+		defer close(done)
 		last, idle := int64(-1), 0
 		for {
-			time.Sleep(time.Second)
+			select {
+			case <-quit:
+				return
+			case <-time.After(time.Second):
+			}
 			if p := vC01Progress.Load(); p != last {
 				last, idle = p, 0
 				continue
@@ -227,6 +234,7 @@ func vC01Watchdog(out *vOut, curCase *atomic.Int64) {
 			}
 		}
 	}()
+	return stop
 }
 
 // ---- script interpreter ----
@@ -409,14 +417,23 @@ func (r *vC01Run) guarded(op vC01Op, f func()) (died bool) {
 }
 
 func (r *vC01Run) kill() {
+	if r.cl != nil {
+		r.cl.dead = true // every later call of this incarnation fails
+	}
+	if r.settle != nil && r.cl != nil {
+		r.settle()
+		// a waiter that was signalled by the dying operation may be parked at the gate of the storage client, holding
+		// the queue mutex: let it run into the dead client and return first (a goroutine blocked on that mutex is not
+		// durably blocked, synctest.Wait would never return)
+		for i := 0; i < 16 && r.cl.gateWaiting > 0; i++ {
+			r.cl.gate <- struct{}{}
+			r.settle()
+		}
+	}
 	for _, p := range r.pending {
 		p.cancel() // the process is gone: let the blocked goroutines of the old incarnation return
 	}
-	if len(r.pending) > 0 && r.settle != nil {
-		if r.cl != nil {
-			r.cl.dead = true
-			r.cl.gate = nil
-		}
+	if r.settle != nil && len(r.pending) > 0 {
 		r.settle()
 	}
 	r.pending = nil
@@ -868,7 +885,7 @@ func TestVerifC01PQ(t *testing.T) {
 	corpus := vC01Corpus()
 	n := vN(2000)
 	var curCase atomic.Int64
-	vC01Watchdog(out, &curCase)
+	defer vC01Watchdog(out, &curCase)()
 	for _, c := range vCases(n) {
 		curCase.Store(int64(c))
 		vC01Progress.Add(1)
@@ -916,7 +933,9 @@ func TestVerifC01PQ(t *testing.T) {
 				r.do(vC01Op{kind: "corrupt", pos: rnd.IntN(1000)})
 				continue
 			}
-			if r.poisoned && !r.alive() {
+			if r.poisoned {
+				// both indexes restarted from 0 over old data: a later Read may run into keys it deleted itself and then
+				// wait forever; the random script stops here (corpus case 12 continues with an offer)
 				break
 			}
 			r.do(r.randomOp(rnd, pDie, pErr))
